@@ -39,11 +39,11 @@ C20Check(ev) ==
         THEN {"C20_Resolved"} ELSE {})
 
 (* ---------------------------------------------------------------- C19 *)
-Importable == {"builtin", "builtin2", "module", "nested", "baseonly"}
+Importable == {"builtin", "builtin2", "module", "nested", "baseonly", "eqhash", "dcerr"}
 Rebuildable == Importable \cup {"local", "dynamic"}            \* cls(args...) reproduces the instance
-ArgsRepr(enc, a) == a \in {"none", "json"} \/ (enc = "pickle" /\ a = "picklable")
+ArgsRepr(enc, a) == a \in {"none", "json", "const"} \/ (enc = "pickle" /\ a = "picklable")
 (* custominit / kwonly / mid store their own args via super().__init__: representable iff those are plain *)
-NodeArgsRepr(enc, nd) == IF nd.c \in {"custominit", "kwonly", "mid"} THEN TRUE ELSE ArgsRepr(enc, nd.a)
+NodeArgsRepr(enc, nd) == IF nd.c \in {"custominit", "kwonly", "mid", "dcerr"} THEN TRUE ELSE ArgsRepr(enc, nd.a)
 MustBeFaithful(enc, nd) == nd.c \in Importable /\ nd.c \in Rebuildable /\ NodeArgsRepr(enc, nd)
 (* pickle keeps any picklable exception object as it is *)
 PickleKeeps(nd) == nd.c \in (Importable \cup {"custominit_x"}) /\ nd.a \in {"none", "json", "picklable"}
